@@ -46,6 +46,11 @@ func (u *Unit) lockOp(ev *Ev, muExpr ast.Expr, op string, at *ast.CallExpr) {
 	switch op {
 	case "Lock", "RLock":
 		st.held[key] = true
+		if op == "RLock" {
+			st.held[key+"#R"] = true // shared mode: reads only
+		} else {
+			delete(st.held, key+"#R")
+		}
 		if li == nil {
 			return
 		}
@@ -92,6 +97,7 @@ func (u *Unit) lockOp(ev *Ev, muExpr ast.Expr, op string, at *ast.CallExpr) {
 			}
 		}
 		delete(st.held, key)
+		delete(st.held, key+"#R")
 	}
 }
 
@@ -123,6 +129,9 @@ func (u *Unit) checkGuarded(ev *Ev, root types.Type, path, ref, what string) {
 					}
 					name := fmt.Sprintf("guarded@%s.%s", n.Obj().Name(), field)
 					u.emit(ev.st, name, "false", what+" of guarded field without holding "+li.Field)
+				} else if what == "write" && ev.st.held[ref+"."+li.Field+"#R"] {
+					name := fmt.Sprintf("guarded@%s.%s", n.Obj().Name(), field)
+					u.emit(ev.st, name, "false", "write of guarded field while holding "+li.Field+" only in shared (RLock) mode")
 				}
 			}
 		}
@@ -137,7 +146,7 @@ func (u *Unit) checkExit(st *State, fr *Frame) {
 	}
 	if len(st.held) > 0 && !st.panicking && !u.c.Flags["returns_locked"] {
 		for k := range st.held {
-			if !u.entryHeld[k] {
+			if !u.entryHeld[k] && !strings.HasSuffix(k, "#R") {
 				u.emit(st, "lock_released", "false", "returns with lock still held: "+k)
 			}
 		}
@@ -615,7 +624,14 @@ func (u *Unit) publishCheck(st *State, pos token.Pos) {
 		refs = append(refs, r)
 	}
 	sort.Strings(refs)
+	onPath := map[string]bool{}
+	for _, f := range st.pc {
+		onPath[f] = true
+	}
 	for _, r := range refs {
+		if !onPath[not(app("=", r, "nil"))] {
+			continue // allocated on another path of this function
+		}
 		t := u.allocT[r]
 		n, ok := t.(*types.Named)
 		if !ok || n.Obj().Pkg() == nil {
